@@ -52,6 +52,8 @@ pub struct Alphabet {
     pub liquidate: bool,
     pub bankruptcy: bool,
     pub accrue: bool,
+    /// the permissionless price-cache crank
+    pub pulse: bool,
     pub collect: bool,
     pub transfer: bool,
     pub close_account: bool,
@@ -89,6 +91,7 @@ impl Alphabet {
             liquidate: true,
             bankruptcy: true,
             accrue: true,
+            pulse: false,
             collect: true,
             transfer: false,
             close_account: false,
@@ -332,6 +335,9 @@ impl Model for Hist {
             if al.accrue {
                 v.push(Action::Accrue { b });
             }
+            if al.pulse {
+                v.push(Action::PulsePriceCache { b });
+            }
             if al.collect {
                 v.push(Action::CollectFees { b });
             }
@@ -423,6 +429,7 @@ pub fn action_kind(a: &Action) -> &'static str {
         Action::Liquidate { .. } => "liquidate",
         Action::Bankruptcy { .. } => "bankruptcy",
         Action::Accrue { .. } => "accrue",
+        Action::PulsePriceCache { .. } => "pulse_price_cache",
         Action::CollectFees { .. } => "collect_fees",
         Action::TokenlessRepay { .. } => "tokenless_repay",
         Action::Purge { .. } => "purge",
@@ -725,6 +732,40 @@ impl StepOracle for FreshnessOracle {
     }
     fn check(&self, c: &StepCtx, out: &mut Vec<Violation>, tags: &mut Vec<&'static str>) {
         let banks = involved_banks(c.a);
+        // whatever the instruction: a bank whose interest clock was moved forward must carry the share values
+        // the real accrue instruction gives it from the same pre-state at the same time (else the elapsed
+        // interest was dropped or booked twice). Banks the instruction transacts in are covered below.
+        if c.res.committed && !matches!(c.a, Action::Accrue { .. } | Action::Bankruptcy { .. }) {
+            for b in 0..c.w.banks.len() {
+                if banks.contains(&b) {
+                    continue;
+                }
+                let (pn, qn) = (&c.pre_nums[b], &c.post_nums[b]);
+                if qn.last_update > pn.last_update && pn.l_sh > 0 && pn.a_sh > 0 && pn.op_state != 255 {
+                    let mut t = c.pre.s.clone();
+                    if act::apply(c.w, &mut t, &Action::Accrue { b }).committed {
+                        let rn = rf::bank_nums(&t, &c.w.banks[b]);
+                        tags.push("clock_moved_on_uninvolved_bank");
+                        if rn.asv != qn.asv || rn.lsv != qn.lsv {
+                            out.push(Violation {
+                                clause: "C06.fresh_state".into(),
+                                detail: format!(
+                                    "{:?} moved the interest clock of bank {} from {} to {} but its share values are {:.9} / {:.9}, not the accrued {:.9} / {:.9}",
+                                    c.a,
+                                    c.w.banks[b].label,
+                                    pn.last_update,
+                                    qn.last_update,
+                                    rf::qf64(&rf::q_raw(qn.asv)),
+                                    rf::qf64(&rf::q_raw(qn.lsv)),
+                                    rf::qf64(&rf::q_raw(rn.asv)),
+                                    rf::qf64(&rf::q_raw(rn.lsv))
+                                ),
+                            });
+                        }
+                    }
+                }
+            }
+        }
         if banks.is_empty() {
             return;
         }
@@ -1095,6 +1136,13 @@ impl StepOracle for StructureOracle {
                 }
                 if qn.lending_account != po.lending_account {
                     out.push(Violation { clause: "C16.transfer_moves_everything".into(), detail: "the new account does not hold exactly the old positions".into() });
+                }
+                // a disabled (bankrupt) account does not become usable again by moving house
+                if po.account_flags & ACCOUNT_DISABLED != 0 {
+                    tags.push("disabled_source");
+                    if qn.account_flags & ACCOUNT_DISABLED == 0 {
+                        out.push(Violation { clause: "C16.disabled_cannot_transact".into(), detail: format!("{:?}: the source account was disabled, the account that now holds its positions is not (flags {:#b} -> {:#b})", c.a, po.account_flags, qn.account_flags) });
+                    }
                 }
                 // only once: transferring the old account again must fail
                 let mut t = c.post.clone();
